@@ -147,7 +147,7 @@ def run(ctx):
     allres += pres
     groups = {}
     for (_, cs, rec) in pres:
-        dl = [e["dl"] for e in rec["ev"] if e["a"] == "SetDeadline"]
+        dl = [e.get("ahead", e["dl"]) for e in rec["ev"] if e["a"] == "SetDeadline"]
         if dl:
             groups.setdefault(cs.get("legacy_before", "none"), []).append(dl[0])
     for name, dls in sorted(groups.items()):
